@@ -273,49 +273,57 @@ func C12(tier string) int {
 	sem := make(chan struct{}, runtime.NumCPU())
 	var wg sync.WaitGroup
 	var desc []string
-	for _, j := range jobs {
-		cnt := int64(0)
-		for _, pr := range rmPrunings {
-			pr := pr
-			var batch [][][]int
-			flush := func(b [][][]int) {
-				wg.Add(1)
-				sem <- struct{}{}
-				go func() {
-					defer wg.Done()
-					defer func() { <-sem }()
-					for _, ch := range b {
-						h := rmHist{N: j.n, Choice: ch, Pruning: pr}
-						r, o, l := runC12(h)
-						if c12nontrivial(ch) {
-							atomic.AddInt64(&nontrivial, 1)
-						}
-						atomic.AddInt64(&opens, o)
-						atomic.AddInt64(&loads, l)
-						if r != nil {
-							mu.Lock()
-							run.Report(r.sig, r.what, h)
-							mu.Unlock()
-						}
-					}
-				}()
+	for _, names := range []int{0, 1} {
+		names := names
+		atomic.StoreInt32(&rmNameVariant, int32(names))
+		for _, j := range jobs {
+			if names == 1 && j.n < 2 {
+				continue
 			}
-			enumChoices(j.n, j.v, j.choices, func(ch [][]int) {
-				cnt++
-				batch = append(batch, copyChoices(ch))
-				if len(batch) == 256 {
-					flush(batch)
-					batch = nil
+			cnt := int64(0)
+			for _, pr := range rmPrunings {
+				pr := pr
+				var batch [][][]int
+				flush := func(b [][][]int) {
+					wg.Add(1)
+					sem <- struct{}{}
+					go func() {
+						defer wg.Done()
+						defer func() { <-sem }()
+						for _, ch := range b {
+							h := rmHist{N: j.n, Choice: ch, Pruning: pr, Names: names}
+							r, o, l := runC12(h)
+							if c12nontrivial(ch) {
+								atomic.AddInt64(&nontrivial, 1)
+							}
+							atomic.AddInt64(&opens, o)
+							atomic.AddInt64(&loads, l)
+							if r != nil {
+								mu.Lock()
+								run.Report(r.sig, r.what, h)
+								mu.Unlock()
+							}
+						}
+					}()
 				}
-			})
-			if len(batch) > 0 {
-				flush(batch)
+				enumChoices(j.n, j.v, j.choices, func(ch [][]int) {
+					cnt++
+					batch = append(batch, copyChoices(ch))
+					if len(batch) == 256 {
+						flush(batch)
+						batch = nil
+					}
+				})
+				if len(batch) > 0 {
+					flush(batch)
+				}
 			}
+			hist += cnt
+			desc = append(desc, fmt.Sprintf("N=%d V=%d choices=%d: %d histories x %d pruning options (store names variant %d)", j.n, j.v, j.choices, cnt/int64(len(rmPrunings)), len(rmPrunings), names))
 		}
-		hist += cnt
-		desc = append(desc, fmt.Sprintf("N=%d V=%d choices=%d: %d histories x %d pruning options", j.n, j.v, j.choices, cnt/int64(len(rmPrunings)), len(rmPrunings)))
+		wg.Wait()
 	}
-	wg.Wait()
+	atomic.StoreInt32(&rmNameVariant, 0)
 	run.Set("evaluations", hist)
 	run.Set("states", hist+opens+loads)
 	run.Set("transitions", opens+loads)
@@ -324,7 +332,7 @@ func C12(tier string) int {
 	run.Set("jobs", desc)
 	run.Set("reopens", opens)
 	run.Set("load_version_calls", loads)
-	run.Set("rule", "every write history (per version and per substore one of {nothing, k1=a, k1=b, delete k1, k2=a, k1=a+delete k2}) over N IAVL substores + 1 transient store, V versions, each of 7 pruning options; after every commit: reopen on a copy (LoadLatestVersion) and LoadVersion(u) for every u in 1..latest+1; before every commit: every retained version loaded on a CopyStore of the live multistore while the writes are pending; at the end: failed loads on the live handle, and a reopen under every other pruning option with and without lazy loading followed by one more commit. Histories are distinct by construction; non-trivial = the content of some store differs between two versions (a write or delete that takes effect)")
+	run.Set("rule", "every write history (per version and per substore one of {nothing, k1=a, k1=b, delete k1, k2=a, k1=a+delete k2}) over N IAVL substores + 1 transient store, V versions, each of 7 pruning options, with store names s1,s2,... and again (N >= 2) with names that are proper prefixes of each other (acc, accounts); after every commit: reopen on a copy (LoadLatestVersion) and LoadVersion(u) for every u in 1..latest+1; before every commit: every retained version loaded on a CopyStore of the live multistore while the writes are pending; at the end: failed loads on the live handle, and a reopen under every other pruning option with and without lazy loading followed by one more commit. Histories are distinct by construction; non-trivial = the content of some store differs between two versions (a write or delete that takes effect)")
 	run.Sample(rmHist{N: 2, Choice: [][]int{{1, 4}, {3, 0}, {2, 5}}, Pruning: [2]int64{0, 2}}.String())
 	run.Assume("MemDB stands in for the on-disk database", "retention rule: commit w releases version w-1-keepRecent unless it is a multiple of keepEvery (store/iavl documentation)", "LoadVersion(0) is not judged (0 is not a committed version)")
 	return run.Finish()
